@@ -50,6 +50,14 @@ func queryText(vc *VC, o *Obligation) string {
 	b.WriteString(smtDefs)
 	b.WriteString(pow2Def())
 	keepDecl, keepLine := vc.sliceFor(o, "")
+	if o.NoSlice {
+		for i := range keepDecl {
+			keepDecl[i] = true
+		}
+		for i := range keepLine {
+			keepLine[i] = true
+		}
+	}
 	ix := vc.sidx
 	// drop unused constant/function declarations as well
 	used := map[string]bool{}
@@ -76,7 +84,7 @@ func queryText(vc *VC, o *Obligation) string {
 			continue
 		}
 		li := ix.decls[i]
-		if li.kind == "declare" && li.name != "" && !used[li.name] && !strings.HasPrefix(d, "(declare-datatypes") {
+		if !o.NoSlice && li.kind == "declare" && li.name != "" && !used[li.name] && !strings.HasPrefix(d, "(declare-datatypes") {
 			continue
 		}
 		body.WriteString(d)
@@ -91,7 +99,7 @@ func queryText(vc *VC, o *Obligation) string {
 	}
 	all := b.String() + body.String() + o.Guard + o.Goal
 	for _, ax := range strAxioms {
-		if ax.sym == "" || strings.Contains(all, "("+ax.sym+" ") {
+		if o.NoSlice || ax.sym == "" || strings.Contains(all, "("+ax.sym+" ") {
 			b.WriteString(ax.ax)
 			b.WriteByte('\n')
 		}
@@ -167,6 +175,9 @@ func discharge(dir string, idx int, vc *VC, o *Obligation, timeoutS int, waitAll
 	}
 	if o.Expect == "sat" && timeoutS > 3 {
 		timeoutS = 3 // vacuity covers only need "not refuted quickly"
+		if o.NoSlice {
+			timeoutS = 10
+		}
 	}
 	q := queryText(vc, o)
 	file := filepath.Join(dir, fmt.Sprintf("q%05d.smt2", idx))
